@@ -38,6 +38,12 @@ Inductive case :=
    get its own buffer / its own batcher registry.  d = two direct wrappings, e = one decorator object *)
 | CBuffer2 (timeout : option N) (script : list bufev2) (d0 e0 d1 e1 : list (N * list nat))
 | CBatcher2 (cfg : ocfg) (script : list bev2) (d0 e0 d1 e1 : btrace)
+(* FORMS ONLY: degenerate option values (0 for timeout / batch_timeout / max_batch_size /
+   max_concurrent_batches) are outside the class of the reference semantics (same-iteration timer
+   expiry), but "the options form configures exactly like the direct form" still has to hold: the
+   three forms' traces are compared with each other, not with a model *)
+| CFormsBuf (direct deco ctor : list (N * list nat))
+| CFormsBat (direct deco ctor : btrace) (cross : nat)
 | CBuffer (timeout : option N) (script : list bufev) (direct deco ctor : list (N * list nat))
 | CBatcher (cfg : ocfg) (script : list bev) (direct deco ctor : btrace) (cross : nat)
 (* solo : for every loop, the trace of THAT loop's part of the plan run alone against the class
@@ -93,6 +99,8 @@ Definition agree (c : case) : bool :=
       let m0 := trace_of (brun (resolve cfg) (cproj 0 sc)) in
       let m1 := trace_of (brun (resolve cfg) (cproj 1 sc)) in
       btrace_eqb m0 d0 && btrace_eqb m0 e0 && btrace_eqb m1 d1 && btrace_eqb m1 e1
+  | CFormsBuf _ _ _ => true
+  | CFormsBat _ _ _ _ => true
   | CBuffer t sc d1 d2 d3 =>
       let m := buf_trace t sc in
       flushes_eqb m d1 && flushes_eqb m d2 && flushes_eqb m d3 &&
@@ -179,6 +187,8 @@ Definition ok (c : case) : bool :=
       btrace_eqb d0 e0 && btrace_eqb d1 e1 &&
       batcher_sane (resolve cfg) (call_keys (cproj 0 sc)) e0 &&
       batcher_sane (resolve cfg) (call_keys (cproj 1 sc)) e1
+  | CFormsBuf d1 d2 d3 => flushes_eqb d1 d2 && flushes_eqb d3 d2
+  | CFormsBat d1 d2 d3 cross => btrace_eqb d1 d2 && btrace_eqb d3 d2 && Nat.eqb cross 0
   | CBuffer t sc d1 d2 d3 =>
       flushes_eqb d1 d2 && flushes_eqb d3 d2 &&
       buffer_ok (match t with Some v => v | None => buf_default_timeout end) sc d2
@@ -208,6 +218,10 @@ Definition nontrivial (c : case) : bool :=
       match e0 with [] => false | _ => true end && match e1 with [] => false | _ => true end
   | CBatcher2 cfg sc d0 e0 d1 e1 =>
       match fst e0 with [] => false | _ => true end && match fst e1 with [] => false | _ => true end
+  | CFormsBuf d1 d2 d3 =>
+      match d1, d2, d3 with [], [], [] => false | _, _, _ => true end
+  | CFormsBat d1 d2 d3 cross =>
+      match fst d1, fst d2, fst d3 with [], [], [] => false | _, _, _ => true end
   | CBuffer t sc d1 d2 d3 =>
       match d2 with [] => false | _ => true end &&
       match t with Some _ => negb (flushes_eqb (buf_trace t sc) (buf_trace None sc)) | None => true end
